@@ -85,6 +85,10 @@ def outputs(k):
 def compare(td, tc):
     if td is tc:
         return R.PROVED, 'identical term'
+    ti, tj = L.float_idioms(td), L.float_idioms(tc)
+    if ti is tj:
+        return R.PROVED, 'identical term once the portable spelling of trunc / round (floor-based, exact) is read as the function it is'
+    td, tc = ti, tj
     w = td.w
     # integer / boolean reading first (exact)
     pc = P.PCtx()
